@@ -167,6 +167,85 @@ theorem boot_sync_needs_hsync :
       = programTrace GV.Proofs.LinkBoot.cexG GV.Proofs.LinkBoot.cexSched 2 0 1 :=
   GV.Proofs.LinkBoot.boot_sync_needs_hsync
 
+/-! ### the await rule -/
+
+theorem unwind_always (st : List (Frame α)) : unwind (awaitsAlways (α := α)) st = none := by
+  induction st with
+  | nil => rfl
+  | cons f rest ih =>
+    cases rest with
+    | nil => rfl
+    | cons g r => simp only [unwind, awaitsAlways, if_true]; exact ih
+
+/-- with the code's rule (every import initialiser call is awaited) the machine with the explicit await rule is the
+    machine `step` -/
+theorem stepA_always (G : Prog α) (sched : α → Nat → Nat) (s : State α) :
+    stepA G sched awaitsAlways s = step G sched s := by
+  unfold stepA
+  split
+  · rename_i h; simp [step, h]
+  · split
+    · simp only [unwind_always]
+    · rfl
+
+theorem stepsA_always (G : Prog α) (sched : α → Nat → Nat) : ∀ n (s : State α),
+    stepsA G sched awaitsAlways n s = steps G sched n s := by
+  intro n
+  induction n with
+  | zero => intro s; rfl
+  | succ n ih => intro s; simp only [stepsA, steps, stepA_always, ih]
+
+/-- **init_complete_before_importer_even_if_suspending** — the machine that carries the await rule explicitly, with the
+    rule of the code (`importInitializer` always awaits), for EVERY acyclic import graph and EVERY suspension schedule:
+    the run ends, and whenever a body item of a package `p` begins, every package `q` that `p` imports has returned
+    from its `$init` and every one of `q`'s own items has finished — however often and wherever below `q` something
+    suspended in between. (The induction over the import DAG is `GV.Proofs.LinkInit.begin_spec`/`done_spec`.) -/
+theorem init_complete_before_importer_even_if_suspending (G : Prog α) (sched : α → Nat → Nat) (rank : α → Nat)
+    (hac : Acyclic G.imports rank) (fuel : Nat) (runtime main : α) (hr0 : rank runtime < fuel) (hr1 : rank main < fuel)
+    (hsync : ∀ p, Reach G.imports runtime p → ∀ i, sched p i = 0) :
+    ∃ n m, (stepsA G sched awaitsAlways m (call G (stepsSync G sched n (bootState G runtime)) main)).stack = [] ∧
+      ∀ pre p i post,
+        (stepsA G sched awaitsAlways m (call G (stepsSync G sched n (bootState G runtime)) main)).trace
+          = pre ++ Ev.begin p i :: post →
+        ∀ q ∈ G.imports p, Ev.done q ∈ pre ∧ ∀ j, j < G.nitems q → Ev.fin q j ∈ pre := by
+  obtain ⟨n, m, hstack, hok⟩ := init_once_after_imports G sched rank hac fuel runtime main hr0 hr1 hsync
+  refine ⟨n, m, by rw [stepsA_always]; exact hstack, ?_⟩
+  rw [stepsA_always]
+  obtain ⟨_, _, _, hd, he, _⟩ := hok
+  intro pre p i post hT q hq
+  have hdone := hd pre p i post hT q hq
+  refine ⟨hdone, ?_⟩
+  obtain ⟨a, b, hab⟩ := List.append_of_mem hdone
+  intro j hj
+  have := he a q (b ++ Ev.begin p i :: post) (by rw [hT, hab]; simp) j hj
+  rw [hab]; exact List.mem_append_left _ this
+
+/-- the chain 2 → 1 → 0 (`runtime` = 9 apart): only package 0's initialiser suspends -/
+def chainG : Prog Nat :=
+  { imports := fun p => if p = 2 then [1] else if p = 1 then [0] else [], nitems := fun p => if p = 9 then 0 else 1 }
+def chainSched : Nat → Nat → Nat := fun p _ => if p = 0 then 1 else 0
+
+/-- **await_only_if_directly_blocking_counterexample** — the rule "await an import only if ITS OWN initialisers can
+    suspend" (which does not look at that package's imports) breaks the property on the chain main(2) → mid(1) →
+    leaf(0) where only the leaf suspends: mid awaits leaf, but main does not await mid, so main's item begins (and the
+    run of main ends) although neither leaf's item has finished nor mid has been initialised. -/
+theorem await_only_if_directly_blocking_counterexample :
+    (stepsA chainG chainSched (awaitsIfDirectlyBlocking chainG chainSched) 12
+        (call chainG (steps chainG chainSched 2 (bootState chainG 9)) 2)).stack = [] ∧
+    Ev.begin 2 0 ∈ (stepsA chainG chainSched (awaitsIfDirectlyBlocking chainG chainSched) 12
+        (call chainG (steps chainG chainSched 2 (bootState chainG 9)) 2)).trace ∧
+    Ev.fin 0 0 ∉ (stepsA chainG chainSched (awaitsIfDirectlyBlocking chainG chainSched) 12
+        (call chainG (steps chainG chainSched 2 (bootState chainG 9)) 2)).trace ∧
+    Ev.done 1 ∉ (stepsA chainG chainSched (awaitsIfDirectlyBlocking chainG chainSched) 12
+        (call chainG (steps chainG chainSched 2 (bootState chainG 9)) 2)).trace := by
+  decide
+
+/-- the same chain under the code's rule: everything completes in order -/
+example : (stepsA chainG chainSched awaitsAlways 14
+      (call chainG (steps chainG chainSched 2 (bootState chainG 9)) 2)).trace
+    = [Ev.enter 9, Ev.done 9, Ev.enter 2, Ev.enter 1, Ev.enter 0, Ev.begin 0 0, Ev.yield, Ev.fin 0 0, Ev.done 0,
+       Ev.begin 1 0, Ev.fin 1 0, Ev.done 1, Ev.begin 2 0, Ev.fin 2 0, Ev.done 2] := by decide
+
 /-- **init_suspension_invisible** — the schedule changes nothing but the suspensions themselves: with the `yield`
     events removed, the trace equals the trace of the run in which nothing ever suspends. -/
 theorem init_suspension_invisible (G : Prog α) (sched : α → Nat → Nat) (fuel : Nat) (runtime main : α) :
